@@ -525,3 +525,14 @@ func PhiClosure(v ssa.Value) []ssa.Value {
 	walk(v)
 	return out
 }
+
+// ReturnsError reports whether some result of fn is of type error.
+func ReturnsError(fn *ssa.Function) bool {
+	res := fn.Signature.Results()
+	for i := 0; i < res.Len(); i++ {
+		if isErrorType(res.At(i).Type()) {
+			return true
+		}
+	}
+	return false
+}
